@@ -20,6 +20,10 @@ CLAIMED = {
    technique="deterministic simulation: independent foreign writer with seeded legal layout freedom feeding a read-only simulated input; enumerated stored-byte faults (every truncation point, every out-of-range index at every index site)",
    text="Per seeded (schema, value) the independent encoder produces a spec-valid encoding under a drawn block layout; fastavro must decode it to the independent decoder's value and skip it exactly (fault-free), must raise for every proper prefix (read and skip mode) and for eight out-of-range values forged at every union/enum index position. Enumeration is complete per encoding (sampled only for very large encodings / site counts); encodings are seeded samples.",
    note="trusted: refavro encoder/decoder (independent, spec-derived); 'raises' = any exception; skipped enum values are not required to be range-checked"),
+ "C01": dict(cat="exploration", ref="DESIGN.md 4 (C01)",
+   technique="deterministic simulation: producer and consumer tasks over a simulated bounded pipe under a seeded scheduler (streaming / ping-pong / close at boundary), byte accounting at the stream seam; sequential fault-free baseline",
+   text="The stream-framing clause (the reader consumes exactly the bytes the writer produced; values written back to back are read one by one) is decided by a two-task message-stream simulation: bytes written per call versus bytes consumed per read are accounted at the seam, ping-pong mode deadlocks on any read-ahead, only read / write+flush may be called, a close at a value boundary must make the next read raise. The round-trip clause rides along as the fault-free baseline over seeded (schema, value) samples: evidence, not proof.",
+   note="trusted: SimPipe = BufferedReader-over-pipe semantics (checked against a real os.pipe in the self-test); refavro.normal_eq for the documented normalisation; one known finding (omitted bytes/fixed defaults) is listed in KNOWN_FINDINGS.txt"),
 }
 
 NA = {
